@@ -188,6 +188,12 @@ func (ex *Exec) checkExhaustive(fr *Frame, from, to *ssa.BasicBlock, st *State, 
 		if to != nil && li.body[to] {
 			continue
 		}
+		if to != nil && len(to.Instrs) > 0 {
+			if _, isPanic := to.Instrs[len(to.Instrs)-1].(*ssa.Panic); isPanic {
+				// a panic is not a way of finishing the loop early
+				continue
+			}
+		}
 		pos := from.Instrs[len(from.Instrs)-1].Pos()
 		// the loop is being left here
 		if len(spec.ExitAsserts) > 0 {
